@@ -326,7 +326,27 @@ CHECKS = {
 NOT_YET = "check not built yet in this round; design in DESIGN.md section 5"
 
 
+# what round 6 of the seeding added to the correspondence of a check (appended to its text)
+ROUND6 = {
+    "C01": " Round 6: three response frames in four carry user headers that look like the op id header to anything but a walk over the "
+           "length-prefixed pairs (a name ending in _opid whose value is a neighbouring op id, a value holding a whole _opid pair).",
+    "C06": " Round 6: one caller in seven has a foreign FContext implementation that is held inside its op id read (yield point ctx.opid) "
+           "while frames for the other requests arrive; the look-alike headers of C01.",
+    "C03": " Round 6: every other lab service has a method returning a union, and handlers may return a union with no member set (a reply "
+           "abandoned part-way): exactly one well-formed INTERNAL_ERROR reply, handler once, the calls that follow served (direct oracle).",
+    "C05": " Round 6: the JSON payloads also announce negative container sizes and 64-bit sizes whose low word is a small int32; a recovered "
+           "panic in Process is a failure.",
+    "C11": " Round 6: generated programs default list / set / map fields to a constant of the file by name.",
+    "C12": " Round 6: all HTTP transports of the harness are given one shared map of static request headers (the caller's map).",
+    "C13": " Round 6: an HTTP peer that takes the request, stays silent for 3/4 of the timeout and hangs up, every time.",
+    "C16": " Round 6: the probes include a (nil, nil) result for every method returning a struct.",
+    "C20": " Round 6: in some cases one request is a shutdown request whose handler calls Stop itself (two or more workers).",
+}
+
+
 def main():
+    for pid, extra in ROUND6.items():
+        CHECKS[pid]["text"] += extra
     hooks_commits = subprocess.run(["git", "-C", "/repo", "log", "--format=%H %s"], capture_output=True,
                                    text=True).stdout.split("\n")
     hook_commits = [l.split()[0] for l in hooks_commits if " verif:" in l or l.split(" ", 1)[-1].startswith("verif")]
